@@ -1,5 +1,8 @@
 """C12 — OCP cost, adjoint gradient and masked Riccati (Gauss-Newton) step are exact.
-proof: Properties_C12.v (Ocp.v at nat / at the real instance);
+proof: Properties_C12.v (Ocp.v at nat / at the real instance; C12_generated_*: the same for the code regenerated from the source);
+translator G13: translate/gen_ocp.py -> coq/gen/OcpGen.v (OCPVariables layout, per-stage bodies / loops / iteration orders of forward, backward,
+                factor_masked, solve_masked); OcpGenEq.v proves every generated piece equal to Ocp.v's (a broken equality is reported by name);
+                Corr_OcpGen.chk12g runs the generated definitions at binary64 against the same implementation records;
 correspondence: Ocp.v at binary64 (Corr_C12.chk12) vs drv_C12 (IndexSet, OCPVariables, OCPEvaluator::forward/backward,
                 StatefulLQRFactor::factor_masked/solve_masked), problem functions teacher-forced;
 oracle (independent of the Coq model and of the C++ derivatives): roll-out cost recomputed here; gradient by complex-step
